@@ -210,6 +210,7 @@ def run(prog, R):
             R.ob("C13-global-scope-only", arm, arm in seen and all(seen[arm]) and len(seen[arm]) >= 2, st.at, f"NotInGlobalScopeError iff !in_global_scope() on {len(seen.get(arm, []))} paths of the {arm} arm")
         R.ob("C13-delay-duration", "DelayStmt", "DelayStmt" in seen and all(seen["DelayStmt"]) and len(seen["DelayStmt"]) >= 2, st.at, f"IncompatibleTypesError iff the designator's type is not Duration ({len(seen.get('DelayStmt', []))} paths)")
     R.premises(prog, "C13-constness-premise", ["C09:C09.1-constness-provenance"], "`assigning to a const symbol is reported` is decided on the symbol's recorded type: a symbol is recorded const exactly when it was declared const (C09.1); a loop variable or parameter recorded as const draws the diagnostic on a lawful program")
+    R.premises(prog, "C13-gate-arity-premise", ["C09:C09.4-stdgates", "C09:C09.4-gate"], "`reported iff the number of parameters or qubits differs from the gate's definition` compares the call with the arity recorded for the gate: the standard-library table and user gate definitions record (parameters, qubits) as defined")
     R.premises(prog, "C13-lookup-premise", ["C07:C07.5-", "C19:C19.3-"], "`calling a name that is not a gate` is decided on the symbol the name resolves to: gate names are looked up like any other name, innermost scope first")
     R.premises(prog, "C13-scope-premise", ["C07:C07.1-", "C07:C07.2-", "C19:C19.2-"],
                "`declared outside the global scope` / `return at global scope` are decided by in_global_scope(): every body (if/else/loop/case/default/gate/def) must be translated inside a freshly entered scope of the right kind")
